@@ -44,6 +44,7 @@ func main() {
 	stubs := flag.String("stub", "internal/io/dlog/rotation.go", "files replaced by stubs from -stubdir")
 	stubdir := flag.String("stubdir", "", "directory with stub files (flattened names, / -> __)")
 	adddir := flag.String("adddir", "", "directory tree of files added to dtail packages (mirrors repo layout)")
+	hooks := flag.String("hooks", "", "comma separated function names (pkgdir.Func or pkgdir.Type.Method) that get a vrt.Hook call as first statement")
 	flag.Parse()
 	if *out == "" {
 		fatal("need -out")
@@ -55,6 +56,12 @@ func main() {
 	vosSet := map[string]bool{}
 	for _, e := range strings.Split(*vosPkgs, ",") {
 		vosSet[e] = true
+	}
+	hookSet := map[string]bool{}
+	for _, e := range strings.Split(*hooks, ",") {
+		if e != "" {
+			hookSet[e] = true
+		}
 	}
 	stubSet := map[string]bool{}
 	for _, e := range strings.Split(*stubs, ",") {
@@ -105,7 +112,7 @@ func main() {
 				overlay[fn] = dst
 				continue
 			}
-			r := &rewriter{fset: p.Fset, info: p.TypesInfo, file: f, rel: relf, useVos: vosSet[rel]}
+			r := &rewriter{fset: p.Fset, info: p.TypesInfo, file: f, rel: relf, useVos: vosSet[rel], pkgDir: rel, hooks: hookSet}
 			src, err := r.run()
 			if err != nil {
 				fatal("%s: %v", relf, err)
@@ -146,6 +153,8 @@ type rewriter struct {
 	file   *ast.File
 	rel    string
 	useVos bool
+	pkgDir string
+	hooks  map[string]bool
 
 	chanLen   map[*ast.CallExpr]string // "Len" / "Cap"
 	closeCall map[*ast.CallExpr]bool
@@ -351,6 +360,38 @@ func (r *rewriter) run() ([]byte, error) {
 			imp.Name = ast.NewIdent(base)
 		}
 		imp.Path.Value = strconv.Quote(np)
+	}
+	for _, d := range r.file.Decls {
+		fd, ok := d.(*ast.FuncDecl)
+		if !ok || fd.Body == nil {
+			continue
+		}
+		name := r.pkgDir + "." + fd.Name.Name
+		var recv ast.Expr = ast.NewIdent("nil")
+		if fd.Recv != nil && len(fd.Recv.List) == 1 {
+			t := fd.Recv.List[0].Type
+			if st, ok := t.(*ast.StarExpr); ok {
+				t = st.X
+			}
+			if id, ok := t.(*ast.Ident); ok {
+				name = r.pkgDir + "." + id.Name + "." + fd.Name.Name
+			}
+			if len(fd.Recv.List[0].Names) == 1 && fd.Recv.List[0].Names[0].Name != "_" {
+				if _, isPtr := fd.Recv.List[0].Type.(*ast.StarExpr); isPtr {
+					recv = ast.NewIdent(fd.Recv.List[0].Names[0].Name)
+				}
+			}
+		}
+		if r.hooks[name+":exit"] {
+			call := &ast.DeferStmt{Call: &ast.CallExpr{Fun: vrtSel("Hook"), Args: []ast.Expr{
+				&ast.BasicLit{Kind: token.STRING, Value: strconv.Quote(name + ":exit")}, recv}}}
+			fd.Body.List = append([]ast.Stmt{call}, fd.Body.List...)
+		}
+		if r.hooks[name] {
+			call := &ast.ExprStmt{X: &ast.CallExpr{Fun: vrtSel("Hook"), Args: []ast.Expr{
+				&ast.BasicLit{Kind: token.STRING, Value: strconv.Quote(name)}, recv}}}
+			fd.Body.List = append([]ast.Stmt{call}, fd.Body.List...)
+		}
 	}
 	var err error
 	res := astutil.Apply(r.file, nil, func(c *astutil.Cursor) bool {
